@@ -24,7 +24,7 @@ SPEC = {
              "at least 2 coordinates offered, at least one kept write and at least one offered coordinate left at "
              "the default; distinct = distinct case."),
     "shards": {"quick": 16, "thorough": 16},
-    "min_counts": {"quick": {"evaluations": 1000, "yields_checked": 5000, "loops_checked": 1500, "removed_checked": 1000,
+    "min_counts": {"quick": {"evaluations": 1000, "populates_with_start_pos": 800, "populates_with_nonzero_start_pos": 40, "yields_checked": 5000, "loops_checked": 1500, "removed_checked": 1000,
                              "untouched_checked": 1000, "nested_loops": 300, "later_passes": 500,
                              "reused_populate_objects": 200, "snapshots_taken": 200, "uformat_destinations": 300, "subfibers_assigned_whole": 300, "existing_leaf_left_at_default_checked": 1000, "nodefault_rejections": 60, "destinations_built_with_initial": 100, "uformat_sources_storing_nothing": 60, "free_uformat_sources": 50}},
     "assumptions": [
@@ -270,7 +270,19 @@ def run_case(case, mon):
                 hoisted[0] = [zf << lazy_fiber]
             pop = hoisted[0][0]
         else:
-            pop = zf << lazy_fiber
+            sp = None
+            if pres and (seed * 31 + level * 17 + hash_pt(prefix)) % 3 == 0 and all(isinstance(x, int) for x in zf.coords):
+                # the optional search-start hint: any position whose predecessor lies below the first offered coordinate is legal,
+                # and a legal hint changes nothing of what the loop offers or leaves behind
+                legal = [q for q in range(len(zf.coords) + 1) if q == 0 or zf.coords[q - 1] < pres[0][0]]
+                sp = legal[-1] if (seed + level) % 2 else legal[(seed + level + hash_pt(prefix)) % len(legal)]
+            if sp is None:
+                pop = zf << lazy_fiber
+            else:
+                pop = zf.__lshift__(lazy_fiber, start_pos=sp)
+                mon.count("populates_with_start_pos")
+                if sp > 0:
+                    mon.count("populates_with_nonzero_start_pos")
         for c, (z_ref, a_val) in pop:
             k = len(seen)
             seen.append(c)
